@@ -31,13 +31,28 @@ var ops = map[OpCode]OpFunc{
 	"-": func(left, right float64) float64 { return left - right },
 	"/": func(left, right float64) float64 { return left / right },
 	"^": math.Pow,
-	"%": func(left, right float64) float64 { return float64(int64(left) % int64(right)) },
+	"%": func(left, right float64) float64 {
+		if int64(right) == 0 { // integer modulo by zero is undefined (and panics)
+			return math.NaN()
+		}
+		return float64(int64(left) % int64(right))
+	},
 
 	// Shift
-	"<<": func(left, right float64) float64 { return float64(int64(left) << int64(right)) },
-	">>": func(left, right float64) float64 { return float64(int64(left) >> int64(right)) },
-	"&":  func(left, right float64) float64 { return float64(int64(left) & int64(right)) },
-	"|":  func(left, right float64) float64 { return float64(int64(left) | int64(right)) },
+	"<<": func(left, right float64) float64 {
+		if int64(right) < 0 { // a negative shift count panics
+			return math.NaN()
+		}
+		return float64(int64(left) << int64(right))
+	},
+	">>": func(left, right float64) float64 {
+		if int64(right) < 0 {
+			return math.NaN()
+		}
+		return float64(int64(left) >> int64(right))
+	},
+	"&": func(left, right float64) float64 { return float64(int64(left) & int64(right)) },
+	"|": func(left, right float64) float64 { return float64(int64(left) | int64(right)) },
 
 	// Comparisons
 	"<":  func(left, right float64) float64 { return conditionalOp(left < right) },
